@@ -339,6 +339,19 @@ func checkC05(r *Run) {
 	for _, m := range longMsgs[:3] {
 		msgs = append(msgs, "\r\n"+m, "\r\n\r\n"+m, "\n"+m)
 	}
+	// repeated headers of every kind with a value parser whose later occurrence has an empty value (blank, folded blanks):
+	// whatever is accepted, each stored header's value lies on its own line
+	for _, pair := range [][2]string{{"From", "<sip:a@b>;tag=1"}, {"f", "Bob <sip:a@b>"}, {"To", "<sip:c@d>"}, {"t", "sip:c@d;tag=2"}, {"Call-ID", "abc@h"}, {"CSeq", "1 INVITE"},
+		{"Contact", "<sip:x@y>;expires=5"}, {"m", "<sip:x@y>, <sip:z@w>"}, {"Expires", "60"}, {"P-Asserted-Identity", "<sip:p@q>"}, {"l", "0"}, {"Via", "SIP/2.0/UDP h"}} {
+		for _, empty := range []string{"", " ", "\t \t", "\r\n ", " \r\n\t "} {
+			for _, mid := range []string{"", "X-Mid: 1\r\n"} {
+				for _, nm := range []string{pair[0], strings.ToUpper(pair[0])} {
+					msgs = append(msgs, "INVITE sip:a SIP/2.0\r\n"+pair[0]+": "+pair[1]+"\r\n"+mid+nm+":"+empty+"\r\nCSeq: 1 INVITE\r\nl: 0\r\n\r\n",
+						"INVITE sip:a SIP/2.0\r\n"+pair[0]+": "+pair[1]+"\r\n"+mid+nm+":"+empty+"\r\n"+nm+": "+pair[1]+"\r\nl: 0\r\n\r\n")
+				}
+			}
+		}
+	}
 	// generated first lines (also near misses: no reason phrase, no separator, odd separators) under every line
 	// terminator, in front of a header block that uses the same terminator: whatever is accepted has its first-line
 	// fields inside the first line and its headers on the header lines
